@@ -250,6 +250,9 @@ impl Deadline {
     pub fn new(limit_s: f64) -> Self {
         Deadline { start: Instant::now(), limit_s }
     }
+    pub fn limit(&self) -> f64 {
+        self.limit_s
+    }
     pub fn elapsed(&self) -> f64 {
         self.start.elapsed().as_secs_f64()
     }
